@@ -1,6 +1,7 @@
 package checks
 
 import (
+	"crypto/tls"
 	"fmt"
 	"sort"
 	"strings"
@@ -82,7 +83,107 @@ func sigsOf(calls []*wl.Call) []string {
 	return s
 }
 
+// runC11TLS: the same property through the TLS port of the full server. A real crypto/tls client writes a pipeline of
+// complete requests (optionally followed by a partial one) and ends its stream at once, so the close_notify alert
+// travels right behind the last data record; TLS 1.2 and 1.3, record delivery chunked by the scheduler.
+func runC11TLS(t *testing.T, tape *sim.Tape, tier string) *Outcome {
+	o := &Outcome{}
+	cl := newCluster(tape, o)
+	d := &wl.Double{}
+	setupTLSServer(cl, 0, d)
+	var calls []string
+	d.OnCall = func(call *wl.Call) {
+		calls = append(calls, call.Sig)
+		cl.S.Logf("calls", "%s", call.Sig)
+	}
+	if err := cl.startServer(); err != nil {
+		o.violate("harness:start", "Start failed: %v", err)
+		cl.finish()
+		return o
+	}
+	p := wl.GetPKI()
+	n := 1 + tape.Draw(4, "nreq")
+	var items [][]byte
+	var want []string
+	for i := 0; i < n; i++ {
+		k, v := fmt.Sprintf("k%d", i), fmt.Sprintf("v%d", i)
+		if tape.Draw(3, "emptyval") == 0 {
+			v = ""
+		}
+		if tape.Draw(2, "kind") == 0 {
+			items = append(items, resp.Cmd("GET", k))
+		} else {
+			items = append(items, resp.Cmd("SET", k, v))
+		}
+		want = append(want, k)
+	}
+	// optionally a partial request behind the complete ones
+	partial := resp.Cmd("SET", "partial", "never")
+	cutIn := tape.Draw(len(partial), "partialcut") // 0 = none
+	if cutIn > 0 {
+		items = append(items, partial[:cutIn])
+	}
+	cfg := p.ClientConfig(p.Right)
+	if tape.Draw(2, "tls12") == 1 {
+		cfg.MaxVersion = tls.VersionTLS12
+		o.stat("tls12_runs", 1)
+	}
+	tc := cl.addTLSClient("ff", addrOf(tlsPort), cfg, items)
+	tc.Pipelined = true
+	tc.EndMode = tape.Draw(2, "endmode")
+	tc.Chunk = tape.Draw(3, "chunkmode")
+	cl.Sticky = tape.Draw(4, "sticky")
+	cl.run(4000, nil, nil)
+	where := fmt.Sprintf("TLS pipeline of %d complete requests (+%d bytes of a further one), end mode %d, tls1.2=%t", n, cutIn, tc.EndMode, cfg.MaxVersion == tls.VersionTLS12)
+	o.Evals++
+	if !tc.HandshakeOK {
+		o.violate("harness:tls-handshake", "%s: handshake failed: %v", where, tc.HandshakeErr)
+	} else {
+		// every complete request executed exactly once, in order; nothing of the partial one
+		var gotKeys []string
+		for _, c := range calls {
+			f := strings.Fields(c)
+			if len(f) >= 2 {
+				gotKeys = append(gotKeys, strings.Trim(f[1], "\""))
+			}
+		}
+		if strings.Join(gotKeys, ",") != strings.Join(want, ",") {
+			if len(gotKeys) < len(want) {
+				o.violate("c11:complete-not-executed:tls", "%s: handler calls %v, expected one per complete request %v", where, calls, want)
+			} else {
+				o.violate("c11:executed-partial:tls", "%s: handler calls %v, expected exactly %v", where, calls, want)
+			}
+		}
+		if tc.EndMode == 0 && len(o.Viol) == 0 {
+			if len(tc.Vals) < n || len(tc.Vals) > n+1 {
+				o.violate("c11:reply-count:tls", "%s: %d replies for %d completely received requests (io err %v)", where, len(tc.Vals), n, tc.IOErr)
+			}
+		}
+		if ts := serverTasks(cl); len(o.Viol) == 0 {
+			for _, t := range ts {
+				if strings.HasPrefix(t.Name, "c") {
+					o.violate("c11:goroutine-left:tls", "%s: connection goroutine still parked: %v", where, taskList(ts))
+					break
+				}
+			}
+		}
+		if reg := registryPipes(cl); len(reg) > 0 && len(o.Viol) == 0 {
+			o.violate("c11:registry-entry-left:tls", "%s: registry still lists %v", where, reg)
+		}
+	}
+	o.stat("tls_pipelines", 1)
+	cl.finish()
+	o.Sched = fmt.Sprintf("tls|%x", hash64(strings.Join(o.Log, "\n")))
+	o.Hashes = []uint64{hash64(o.Sched)}
+	o.Nontrivial = true
+	o.Sample = map[string]any{"tls_pipeline": where, "handler_calls": calls, "replies": len(tc.Vals)}
+	return o
+}
+
 func runC11(t *testing.T, tape *sim.Tape, tier string) *Outcome {
+	if tape.Draw(2, "tlsvariant") == 1 {
+		return runC11TLS(t, tape, tier)
+	}
 	o := &Outcome{}
 	maxReq := 4
 	n := 1 + tape.Draw(maxReq, "nreq")
@@ -284,8 +385,8 @@ func runC11(t *testing.T, tape *sim.Tape, tier string) *Outcome {
 func init() {
 	register(&Check{
 		ID: "C11", Bubble: true, Run: runC11,
-		Runs:   map[string]int{"quick": 96, "thorough": 2500},
-		Rule:   "per generated pipeline (1..4 valid requests, <= 420 bytes): every byte offset 0..len x {half-close, close, reset, reset whose error only one read reports (then end of stream, as on Linux)} x 2 delivery schedules (whole prefix, seeded chunking), plus one reset per offset that drops a drawn amount of undelivered bytes - enumerated completely per pipeline; one pipeline in eight instead ends with a 70 KB text value of CRLF-terminated lines whose cuts are sampled at structural places (after embedded line ends, around powers of two of the payload, inside the terminator); pipelines are sampled; distinct = distinct (pipeline, offset, end mode, schedule, drop) tuples; every case ends a stream so all are non-trivial",
+		Runs:   map[string]int{"quick": 176, "thorough": 5000},
+		Rule:   "per generated pipeline (1..4 valid requests, <= 420 bytes): every byte offset 0..len x {half-close, close, reset, reset whose error only one read reports (then end of stream, as on Linux)} x 2 delivery schedules (whole prefix, seeded chunking), plus one reset per offset that drops a drawn amount of undelivered bytes - enumerated completely per pipeline; one pipeline in eight instead ends with a 70 KB text value of CRLF-terminated lines whose cuts are sampled at structural places (after embedded line ends, around powers of two of the payload, inside the terminator); every second run goes through the TLS port instead: a real crypto/tls client (1.2 or 1.3) writes a pipeline of complete requests, optionally a partial one, and ends its stream at once (close_notify or close right behind the last record); pipelines are sampled; distinct = distinct (pipeline, offset, end mode, schedule, drop) tuples; every case ends a stream so all are non-trivial",
 		Real:   []string{"redis.Server connection loop, parser, dispatch, executors, connection registry"},
 		Stub:   []string{"transport: simulated net.Conn with FIN / full close / RST", "handler: recording double"},
 		Assume: []string{"the expected handler calls of a completely received request are those of the fault-free run of the same pipeline"},
